@@ -26,8 +26,9 @@ dict(**kwargs) -> new dictionary initialized with the name=value pairs
 var (
 	StringDictType = NewTypeX("dict", dictDoc, DictNew, nil)
 	DictType       = NewType("dict", dictDoc)
-	expectingDict  = ExceptionNewf(TypeError, "a dict is required")
 )
+
+func expectingDict() *Exception { return ExceptionNewf(TypeError, "a dict is required") }
 
 func init() {
 	StringDictType.Dict["items"] = MustNewMethod("items", func(self Object, args Tuple) (Object, error) {
@@ -171,7 +172,7 @@ func NewStringDictSized(n int) StringDict {
 func DictCheckExact(obj Object) (StringDict, error) {
 	dict, ok := obj.(StringDict)
 	if !ok {
-		return nil, expectingDict
+		return nil, expectingDict()
 	}
 	return dict, nil
 }
